@@ -182,7 +182,7 @@ class PrintVisitor(base_visitor.Visitor):
     """Do we need to use Tuple[x, ...] instead of Tuple[x]?"""
     if isinstance(t, pytd.TupleType):
       return False  # TupleType is always heterogeneous.
-    return t.base_type == "tuple"
+    return t.base_type in ("tuple", "builtins.tuple")
 
   def _NeedsCallableEllipsis(self, t: pytd.GenericType) -> bool:
     """Check if it is typing.Callable type."""
